@@ -150,6 +150,17 @@ RECURSIVE RunCalls(_, _, _, _)
 RunCalls(c, s, k, mode) == IF k > Len(c.calls) \/ s.err # "" THEN s ELSE RunCalls(c, SolveCall(c, s, c.calls[k], mode), k + 1, mode)
 Run(c, mode) == RunCalls(c, InitState(c), 1, mode)
 
+(* setMeshtoRecordedTime(time): the recorded profile nearest outside the range, linear interpolation between the two
+   neighbouring records inside it *)
+MeshAt(c, s, t) ==
+    LET n == Len(s.rec)
+    IN  IF RLt(t, s.rec[1].t) THEN s.rec[1].x
+        ELSE IF RLt(s.rec[n].t, t) THEN s.rec[n].x
+        ELSE IF \A k \in 1..n : ~RLt(t, s.rec[k].t) THEN s.rec[n].x          \* t equals the last time: argmax of an all-False mask is 0 in the code, see note
+        ELSE LET u == CHOOSE k \in 1..n : RLt(t, s.rec[k].t) /\ \A j \in 1..(k - 1) : ~RLt(t, s.rec[j].t)
+                 w == RDiv(RSub(t, s.rec[u - 1].t), RSub(s.rec[u].t, s.rec[u - 1].t))
+             IN  [e \in Els(c) |-> [i \in Nodes(c) |-> RAdd(RMul(RSub(s.rec[u].x[e][i], s.rec[u - 1].x[e][i]), w), s.rec[u - 1].x[e][i])]]
+
 (* closed-system invariance across the whole run, including the hand-over between solve calls *)
 ClosedAcrossRun(c, s) == \A e \in Els(c) :
     (c.bc[e].lt = "flux" /\ c.bc[e].lv = RZero /\ c.bc[e].rt = "flux" /\ c.bc[e].rv = RZero
